@@ -21,7 +21,19 @@ CTYPE = {"bool": "_Bool", "char": "char", "uchar": "unsigned char", "short": "sh
 TY = {"bool": (1, False), "char": (1, True), "uchar": (1, False), "short": (2, True), "ushort": (2, False),
       "int": (4, True), "uint": (4, False), "llong": (8, True), "ullong": (8, False),
       "enum": (4, False), "senum": (4, True)}
-PROLOGUE = "enum E { E0, E1, E2 };\nenum SE { SEm = -1, SE0, SE1 };\n"
+# base types whose alignment is smaller than their size: typedefs with a lowering aligned attribute
+UNDER = {"ushort_a1": ("unsigned short", 1), "short_a1": ("short", 1), "uint_a1": ("unsigned int", 1),
+         "uint_a2": ("unsigned int", 2), "int_a2": ("int", 2), "ullong_a1": ("unsigned long long", 1),
+         "ullong_a2": ("unsigned long long", 2), "ullong_a4": ("unsigned long long", 4), "llong_a4": ("long long", 4)}
+for _k, (_b, _a) in UNDER.items():
+    CTYPE[_k] = _k
+    TY[_k] = ({"short": 2, "int": 4, "long": 8}[_b.split()[-1]], not _b.startswith("unsigned"))
+ALIGN = {k: v[0] for k, v in TY.items()}
+ALIGN.update({k: a for k, (_b, a) in UNDER.items()})
+PROLOGUE = "enum E { E0, E1, E2 };\nenum SE { SEm = -1, SE0, SE1 };\n" + "".join(
+    "typedef %s %s __attribute__((aligned(%d)));\n" % (b, k, a) for k, (b, a) in sorted(UNDER.items()))
+# i686: `long long` itself is 8 bytes aligned to 4; the model names stay llong_a4 / ullong_a4
+CTYPE_I686 = dict(CTYPE, llong_a4="long long", ullong_a4="unsigned long long")
 
 
 def T(ty, bw, named=True):
@@ -37,6 +49,9 @@ FAMILIES = {
     "boolenum": [T("bool", 1), T("enum", 2), T("senum", 3), T("short", 16), T("int", 31), T("llong", 0, False)],
     "narrow": [T("char", 8), T("char", 6), T("ushort", 15), T("short", 1), T("int", 30), T("uchar", 0, False),
                T("int", -1)],
+    # alignment < size: the straddle rule takes the offset modulo the ALIGNMENT, compares with the SIZE
+    "underaligned": [T("uint_a2", 20), T("uint_a2", 9), T("ullong_a4", 40), T("ushort_a1", 12), T("int_a2", 13),
+                     T("ullong_a2", 0, False), T("char", -1)],
 }
 ATTRS_QUICK = ["none", "packed", "pack1", "pack2", "pack4"]
 ATTRS_THOROUGH = ["none", "packed", "pack1", "pack2", "pack4", "pack8", "aligned16"]
@@ -96,6 +111,11 @@ def features(p):
                     sig.add("signed-narrow")
                 if (b["off"] % (8 * TY[f["ty"]][0])) + b["w"] > 8 * TY[f["ty"]][0]:
                     sig.add("straddle")
+                if ALIGN[f["ty"]] < TY[f["ty"]][0]:
+                    sig.add("underaligned")
+                    c_off = p["c"]["offs"][b["i"] - 1]
+                    if (c_off % (8 * TY[f["ty"]][0])) + b["w"] > 8 * TY[f["ty"]][0]:
+                        sig.add("crosses-size-boundary")
     if any(f["bw"] == 0 for f in fs):
         sig.add("zero")
     if any(f["bw"] > 0 and not f["named"] for f in fs):
@@ -136,10 +156,11 @@ def select(recs, n, rnd, per_sig=2):
 # rendering
 # ---------------------------------------------------------------------------
 
-def render_decl(name, p):
+def render_decl(name, p, ctype=None):
+    ctype = ctype or CTYPE
     body = []
     for i, f in enumerate(p["fields"], 1):
-        ct = CTYPE[f["ty"]]
+        ct = ctype[f["ty"]]
         if f["bw"] < 0:
             body.append("  %s f%d;" % (ct, i))
         elif f["named"]:
@@ -555,3 +576,67 @@ def r3_bigendian(decls, sweep_exe, name="be"):
             if r != want:
                 bad.append(dict(m, entry=e, real=r, want=want))
     return len(lines), bad
+
+
+# ---------------------------------------------------------------------------
+# R4: another ABI without running anything (i686: long long is 8 bytes aligned to 4)
+# ---------------------------------------------------------------------------
+I686_TARGET = "i686-unknown-linux-gnu"
+
+
+def static_init_observe(decls, target, ctype, name):
+    """Observations for Trace_BitAlloc on a target we cannot execute: clang's bit offsets from the bytes
+    of `struct S g = { .f = all-ones }` in the object file (little-endian target), sizeof from an
+    initialised global, the generated constants from the real bindgen run for that target.  The byte
+    offset of a unit inside the Rust struct cannot be observed without a Rust tool chain for the
+    target: callers pass declarations whose only unit starts the record (offset 0 is then assumed)."""
+    d = C.workdir("c03-" + name)
+    with open(os.path.join(d, "b.h"), "w") as f:
+        f.write(PROLOGUE + "".join(render_decl(n, p, ctype) for n, p in decls))
+    c = ['#include "b.h"']
+    for n, p in decls:
+        c.append("unsigned int sz_%s = sizeof(%s %s);" % (n, p["kind"], n))
+        for i, fl in enumerate(p["fields"], 1):
+            if fl["named"]:
+                lit = "1" if fl["ty"] == "bool" else "(%s)0xffffffffffffffffULL" % ctype[fl["ty"]]
+                c.append("%s %s g_%s_f%d = { .f%d = %s };" % (p["kind"], n, n, i, i, lit))
+    with open(os.path.join(d, "g.c"), "w") as f:
+        f.write("\n".join(c) + "\n")
+    sh(["clang", "--target=" + target, "-O0", "-w", "-c", "g.c", "-o", "g.o"], d, "clang for " + target)
+    sh(["llvm-objcopy", "-O", "binary", "--only-section=.data", "g.o", "g.bin"], d, "llvm-objcopy")
+    nm = sh(["llvm-nm", "-S", "--defined-only", "g.o"], d, "llvm-nm").stdout
+    data = open(os.path.join(d, "g.bin"), "rb").read()
+    sym = {}
+    for line in nm.splitlines():
+        f = line.split()
+        if len(f) == 4 and f[2] in ("D", "d"):
+            sym[f[3]] = (int(f[0], 16), int(f[1], 16))
+    p = sh([C.BINDGEN, "--formatter=none", "--no-layout-tests", "--no-doc-comments", "b.h", "--", "--target=" + target],
+           d, "bindgen for " + target, tool=False)
+    if p.returncode != 0:
+        return None, {"bindgen_rc": p.returncode, "stderr": p.stderr[-800:]}
+    parsed = parse_bindings(p.stdout)
+    obs = []
+    for n, pr in decls:
+        if "sz_" + n not in sym:
+            raise C.ToolError("no sizeof symbol for %s in the %s object" % (n, target))
+        o, s = sym["sz_" + n]
+        size = int.from_bytes(data[o:o + s], "little")
+        nf = len(pr["fields"])
+        c_offs, c_w = [-1] * nf, [-1] * nf
+        for i in range(1, nf + 1):
+            g = sym.get("g_%s_f%d" % (n, i))
+            if not g:
+                continue
+            b = data[g[0]:g[0] + g[1]]
+            bits = [k for k in range(8 * len(b)) if b[k // 8] >> (k % 8) & 1]
+            if not bits or bits != list(range(bits[0], bits[0] + len(bits))):
+                raise C.ToolError("initialiser bits of %s f%d are not contiguous: %s" % (n, i, bits))
+            c_offs[i - 1], c_w[i - 1] = bits[0], len(bits)
+        e = parsed.get(n, {"getters": {}, "units": {}})
+        obs.append({"id": n, "kind": pr["kind"], "attr": pr["attr"], "fields": pr["fields"], "c_offs": c_offs,
+                    "c_widths": c_w, "c_size": size,
+                    "r_units": [{"nth": k, "off": 0, "size": v} for k, v in sorted(e["units"].items())],
+                    "r_bfs": [{"i": int(k[1:]), "unit": v["unit"], "off": v["off"], "w": v["w"]}
+                              for k, v in sorted(e["getters"].items())]})
+    return obs, parsed
